@@ -17,7 +17,7 @@ def run(out, tier, seed):
     cases = []
     for t in r.tagged("HIST"):
         meth = rng.choice(["meth", "meth", "other", "deco"])
-        path = "dotted" if rng.random() < 0.25 else "direct"
+        path = rng.choice(["direct", "direct", "dotted", "selfcap", "selfalias"])
         cases.append({"id": len(cases), "src": "tlc-exhaustive", "target": t[1], "calls": list(t[2]), "method": meth, "path": path})
     for s, w in sigs.items():
         cases.append({"id": len(cases), "src": "witness:" + s, "target": w[0], "calls": list(w[1]), "method": "meth", "path": "direct"})
@@ -25,7 +25,7 @@ def run(out, tier, seed):
     for _ in range(200 if tier == "quick" else 3000):
         cases.append({"id": len(cases), "src": "random", "target": rng.choice(objs + ["K", "Sub", "E", "U"]),
                       "calls": [rng.choice(objs) for _ in range(rng.randint(1, 5))],
-                      "method": rng.choice(["meth", "other", "deco"]), "path": rng.choice(["direct", "dotted"])})
+                      "method": rng.choice(["meth", "other", "deco"]), "path": rng.choice(["direct", "dotted", "selfcap", "selfalias"])})
     for cls in ["K", "Sub", "E", "U"]:
         cases.append({"id": len(cases), "src": "property", "target": cls, "calls": objs, "method": "prop", "path": "direct"})
     cin, cout = os.path.join(work, "rc.json"), os.path.join(work, "rt.json")
